@@ -31,13 +31,15 @@ class C13Irrigation(Monitor):
     def on_init(self, ctx):
         m = ctx.model
         im = m._param_struct.IrrMngt
+        # contracts are checked against what the USER configured; the model's struct only supplies defaults
+        kw = (ctx.spec.get("irr") or {}).get("kw") or {}
         self.method = int(im.irrigation_method)
-        self.maxirr = float(im.MaxIrr)
-        self.cap = float(im.MaxIrrSeason)
-        self.eff = float(im.AppEff)
-        self.smt = [float(x) for x in np.asarray(im.SMT, dtype=float)]
-        self.interval = int(im.IrrInterval)
-        self.depth = float(im.depth)
+        self.maxirr = float(kw.get("MaxIrr", im.MaxIrr))
+        self.cap = float(kw.get("MaxIrrSeason", im.MaxIrrSeason))
+        self.eff = float(kw.get("AppEff", im.AppEff))
+        self.smt = [float(x) for x in np.asarray(kw.get("SMT", im.SMT), dtype=float)]
+        self.interval = int(kw.get("IrrInterval", im.IrrInterval))
+        self.depth = float(kw.get("depth", im.depth))
         sch = (ctx.spec.get("irr") or {}).get("schedule") or []
         self.sched = {}
         for d, x in sch:
